@@ -1443,11 +1443,25 @@ func (f *formatter) ExprTernary(n *ast.ExprTernary) {
 
 func (f *formatter) ExprUnaryMinus(n *ast.ExprUnaryMinus) {
 	n.MinusTkn = f.newToken('-', []byte("-"))
+
+	switch n.Expr.(type) {
+	case *ast.ExprUnaryMinus, *ast.ExprPreDec:
+		// keep `- -$a` and `- --$a` from reading as `--`
+		f.addFreeFloating(token.T_WHITESPACE, []byte(" "))
+	}
+
 	n.Expr.Accept(f)
 }
 
 func (f *formatter) ExprUnaryPlus(n *ast.ExprUnaryPlus) {
 	n.PlusTkn = f.newToken('+', []byte("+"))
+
+	switch n.Expr.(type) {
+	case *ast.ExprUnaryPlus, *ast.ExprPreInc:
+		// keep `+ +$a` and `+ ++$a` from reading as `++`
+		f.addFreeFloating(token.T_WHITESPACE, []byte(" "))
+	}
+
 	n.Expr.Accept(f)
 }
 
